@@ -48,7 +48,7 @@ import e2e
 PROTOS = ["ipfix", "nf9", "nf5", "sflow"]
 PORT_IDX = {"ipfix": 0, "sflow": 1, "nf5": 2, "nf9": 3}          # index into Vflow.ports
 STAT = {"ipfix": "IPFIX", "nf9": "NetflowV9", "nf5": "NetflowV5", "sflow": "SFlow"}
-PROP_OF = {"crash": "C01", "exit": "C01", "stderr": "C01", "probe": "C01", "dead": "C01",
+PROP_OF = {"crash": "C01", "exit": "C01", "stderr": "C01", "probe": "C01",
            "rss": "C02", "alloc": "C02", "amplification": "C02", "stall": "C02", "latency": "C02",
            "count": "C13", "missing": "C13", "invented": "C13", "duplicate": "C13", "cross": "C13"}
 # verdict classes that depend on elapsed time or on the load of the machine: they are reported only when the cycle, run
@@ -301,8 +301,9 @@ class Cycle:
         self.n, self.seed, self.binary = n, seed, binary
         self.rng = random.Random(seed * 1000003 + n * 7919 + 11)
         p = dict(params or {})
-        self.workers = int(p.get("workers") or self.rng.choice([1, 2, 4, 4, 8, 16, 64]))
-        self.udp_size = int(p.get("udp_size") or self.rng.choice([1500, 1500, 9000]))
+        w, u = self.rng.choice([1, 2, 4, 4, 8, 16, 64]), self.rng.choice([1500, 1500, 9000])     # drawn in any case: a replay names them
+        self.workers = int(p.get("workers") or w)
+        self.udp_size = int(p.get("udp_size") or u)
         self.dg = int(p.get("dg") or 300)
         self.burst = int(p.get("burst") or 0)
         self.sample = {"workers": self.workers, "udp_size": self.udp_size, "dg": self.dg, "burst": self.burst}
@@ -329,7 +330,12 @@ class Cycle:
         while True:
             self.polls += 1
             st = self.vf.stats()
-            if st is not None and all(isinstance(st.get(STAT[p]), dict) for p in PROTOS):
+            if isinstance(st, dict) and all(isinstance(st.get(STAT[p]), dict) for p in PROTOS):
+                for p in PROTOS:
+                    for key in ("UDPCount", "DecodedCount"):
+                        if not isinstance(st[STAT[p]].get(key), int):
+                            self.fail("count", "the /flow document has no integer %s for %s: %s" % (key, STAT[p], json.dumps(st[STAT[p]])[:200]))
+                            raise Abort()
                 return st
             if self.vf.proc.poll() is not None:
                 self.died(self.when)
@@ -523,6 +529,10 @@ class Cycle:
             except Abort as a:
                 if a.skip:
                     return "skipped:" + a.skip, [], self.sample
+            except Exception as e:
+                # an error of the harness itself (generator, sockets, files): no verdict, and visible in the evidence
+                import traceback
+                return "skipped:harness-error", [], dict(self.sample, harness_error=traceback.format_exc()[-600:])
             return ("ok" if not self.findings else "failed"), self.findings, self.sample
         finally:
             if self.vf and self.vf.proc and self.vf.proc.poll() is None:
